@@ -502,12 +502,14 @@ where
             let head_ref = visitor.mark_branch_point();
             let exit_ref = visitor.mark_branch_point();
             let break_label = Some(exit_ref);
+            // the case block is one lexical scope: declarations in a clause must not leak out
+            let mut locals = locals.clone();
             let bodies: Vec<_> = body_statements
                 .iter()
                 .filter_map(|nodes| {
                     walk_stmt_nodes(
                         ctx,
-                        locals,
+                        &mut locals,
                         break_label,
                         nodes,
                         source,
